@@ -7,3 +7,6 @@ import CruxVerif.Props.C07
 #print axioms Props.C07.done_iff
 #print axioms Props.C07.host_sees_done_exactly
 #print axioms Props.C07.evict_complete_dropped_request_partial
+#print axioms Props.C07.serials_fresh_direct
+#print axioms Props.C07.serials_fresh_core
+#print axioms Props.C07.evict_complete_dropped_request_reachable
